@@ -10,6 +10,8 @@ one() {
   git -C /repo worktree add -q --detach "$W/wt" HEAD || { echo "== $n: worktree failed"; return; }
   if ! (cd "$W/wt" && git apply "/verif/$d/patch.diff" 2>/dev/null); then
     echo "== $n: NOAPPLY (the patch was written against an earlier tree)"
+  elif (cd "$W/wt" && SRC="$W/wt/src" bash "/verif/$d/demo.sh" >/dev/null 2>&1); then
+    echo "== $n: NEUTRALISED (with the change applied to the current tree its own demonstration passes: a later fix removed the code path it relied on)"
   else
     out=$(VERIF_REPO="$W/wt" VERIF_JOBS=6 ./check $id --tier $TIER 2>&1); rc=$?
     nv=$(echo "$out" | grep -c "^VIOLATION property=$id")
